@@ -278,6 +278,88 @@ let run (cmd : string) (args : string list) : string =
                        (dec_of_n e.Table.e_maxdepth) (int_of_z e.Table.e_eval))
       | _ -> "?") (String.split_on_char ',' ops) in
     String.concat "," out ^ " max=" ^ dec_of_n (Table.acc_max_entries !a)
+  | "eval", [fen; plies] ->
+    (match model_state fen with
+     | None -> "badfen"
+     | Some s ->
+       let int_of_z = function Z0 -> 0 | Zpos p -> int_of_pos p | Zneg p -> - (int_of_pos p) in
+       let one c p = match Eval.evaluate s c (n_of_dec p) with Eval.EVal v -> string_of_int (int_of_z v) | Eval.EPanic -> "panic" in
+       let l = L.map (fun p -> one Types.White p ^ "/" ^ one Types.Black p) (String.split_on_char ',' plies) in
+       if L.exists (fun x -> x = "panic/panic") l then "panic" else String.concat "," l)
+  | "estimate", [fen] ->
+    (match model_state fen with
+     | None -> "badfen"
+     | Some s ->
+       let int_of_z = function Z0 -> 0 | Zpos p -> int_of_pos p | Zneg p -> - (int_of_pos p) in
+       let l = L.map (fun m -> Printf.sprintf "%d:%d" (int_of_n m) (int_of_z (Eval.estimate s m))) (MoveGen.pseudo_legal s) in
+       String.concat "," (L.sort compare l))
+  | "attacks", [fen] ->
+    (match model_state fen with
+     | None -> "badfen"
+     | Some s ->
+       let b = s.Board.st_board in
+       Printf.sprintf "%s,%s,%s,%s,%d,%d,%d" (bb_str (Board.colored_attacks b Types.White)) (bb_str (Board.colored_attacks b Types.Black))
+         (bb_str (Board.colored_pawn_attacks b Types.White)) (bb_str (Board.colored_pawn_attacks b Types.Black))
+         (bool_int (Board.board_is_check b Types.White)) (bool_int (Board.board_is_check b Types.Black)) (bool_int (Board.is_check s)))
+  | "specattacks", [fen] ->
+    (* attack sets from the rules: union over pieces of attacks_from, minus own squares; check = king attacked *)
+    (match spec_pos fen with
+     | None -> "badfen"
+     | Some p ->
+       let set c pawn_only =
+         let acc = ref N0 in
+         for t = 0 to 63 do
+           let tn = n_of_int t in
+           let att = ref false in
+           for f = 0 to 63 do
+             match p.Rules.p_at (n_of_int f) with
+             | Some (c', k) when c' = c && ((not pawn_only) || k = Types.Pawn) ->
+               if Rules.attacks_from p c k (n_of_int f) tn then att := true
+             | _ -> ()
+           done;
+           let own = (match p.Rules.p_at tn with Some (c', _) -> c' = c | None -> false) in
+           if !att && not own then acc := BinNat.N.add !acc (BinNat.N.shiftl (n_of_int 1) tn)
+         done; !acc in
+       Printf.sprintf "%s,%s,%s,%s,%d,%d,%d" (bb_str (set Types.White false)) (bb_str (set Types.Black false))
+         (bb_str (set Types.White true)) (bb_str (set Types.Black true))
+         (bool_int (Rules.king_attacked p Types.White)) (bool_int (Rules.king_attacked p Types.Black))
+         (bool_int (Rules.king_attacked p p.Rules.p_turn)))
+  | "attackops", [fen; ops] ->
+    (match model_state fen with
+     | None -> "badfen"
+     | Some s ->
+       let cur = ref (Board.fresh s.Board.st_board) and saved = ref (Board.fresh s.Board.st_board) in
+       let q c = let (m, cb) = Board.attack_map !cur c in cur := cb; m in
+       let out = ref [] in
+       L.iter (fun op ->
+         match op with
+         | "aw" -> out := bb_str (fst (q Types.White)) :: !out
+         | "ab" -> out := bb_str (fst (q Types.Black)) :: !out
+         | "pw" -> out := bb_str (snd (q Types.White)) :: !out
+         | "pb" -> out := bb_str (snd (q Types.Black)) :: !out
+         | "cw" -> let a = fst (q Types.Black) in
+           out := (if BinNat.N.eqb (BinNat.N.coq_land (Board.pocc !cur.Board.cb_board Types.White Types.King) a) N0 then "0" else "1") :: !out
+         | "cb" -> let a = fst (q Types.White) in
+           out := (if BinNat.N.eqb (BinNat.N.coq_land (Board.pocc !cur.Board.cb_board Types.Black Types.King) a) N0 then "0" else "1") :: !out
+         | "clone" -> saved := !cur
+         | _ -> let t = !cur in cur := !saved; saved := t) (String.split_on_char ',' ops);
+       String.concat "," (L.rev !out))
+  | "rulekey", [fen] ->
+    (* placement, side, rights and whether an en-passant capture is available (by the rules), as a string *)
+    (match spec_pos fen with
+     | None -> "badfen"
+     | Some p ->
+       let parts = String.split_on_char ' ' fen in
+       let epav = match p.Rules.p_ep with
+         | None -> "-"
+         | Some t -> if L.exists (fun f -> match p.Rules.p_at f with
+             | Some (c, Types.Pawn) when c = p.Rules.p_turn -> Rules.pseudo_legal p { Rules.mv_from = f; mv_to = t; mv_promo = None }
+             | _ -> false) (L.init 64 n_of_int) then L.nth parts 3 else "-" in
+       String.concat " " [L.nth parts 0; L.nth parts 1; L.nth parts 2; epav])
+  | "specterm", [fen] ->
+    (match spec_pos fen with
+     | None -> "badfen"
+     | Some p -> if Rules.checkmate p then "mate" else if Rules.stalemate p then "stale" else "none")
   | "sethasher", [seed; stream] ->
     Hashtbl.replace hashers seed (Text.hasher_of_stream (L.map n_of_dec (String.split_on_char ',' stream))); "ok"
   | "hash", [seed; fen] ->
